@@ -235,6 +235,7 @@ func installOCSPWorld(ncand int) {
 		candidates = append(candidates, &x509.Certificate{})
 	}
 	installCache()
+	verifrt.InstallSyncMap()
 	verifrt.Override("golang.org/x/crypto/ocsp.ParseResponse", func(b []byte, issuer *x509.Certificate) (*xocsp.Response, error) {
 		return modelParse(b, nil, issuer)
 	})
